@@ -56,11 +56,15 @@ def build_input(spec):
     from pyuncertainnumber import pba
     k = spec[0]
     if k == "I":
+        if len(spec) > 3 and spec[3] == "int":      # Python ints as bounds
+            return pba.I(int(spec[1]), int(spec[2]))
         return pba.I(float(spec[1]), float(spec[2]))
     if k == "P":
         fam, a, b = spec[1], spec[2], spec[3]
         return getattr(pba, fam)(list(a), list(b)) if fam != "normal1" else pba.normal(list(a), [b[0]])
     if k == "D":
+        if len(spec) > 3 and spec[3] == "list":     # parameters given as a list instead of a tuple
+            return pba.Distribution(spec[1], list(spec[2]))
         return pba.Distribution(spec[1], tuple(spec[2]))
     raise ValueError(k)
 
@@ -83,6 +87,8 @@ def run_mixed(case, seed_override=None, dep_obj=None):
     mixed_up, Staircase, convert_pbox, Params = _mods()
     vars_ = [build_input(s) for s in case["inputs"]]
     f = X.Func(case["e"], len(vars_))
+    fcall = X.make_callable(f, case.get("fstyle", "object"))
+    via = case.get("via")
     s, st, n = case["cf"]
     kw = {}
     if st is not None:
@@ -95,13 +101,29 @@ def run_mixed(case, seed_override=None, dep_obj=None):
         dep = dep_obj          # reuse the SAME Dependency object (a history: two runs on one object)
     with Capture() as cap:
         try:
-            if case["method"] == "slicing":
-                r = mixed_up.slicing(vars_, f, s, case["k"], **kw)
+            seed = case.get("seed") if seed_override is None else seed_override
+            if via == "MixedPropagation":
+                from pyuncertainnumber.propagation.p import MixedPropagation
+                if case["method"] == "slicing":
+                    r, lv = MixedPropagation(vars_, fcall, "slicing", interval_strategy=s).run(n_slices=case["k"], **kw), None
+                else:
+                    r, lv = MixedPropagation(vars_, fcall, "interval_monte_carlo", dependency=dep, interval_strategy=s).run(
+                        n_sam=case["n_sam"], random_state=seed, side_effects=True, **kw)
+            elif via == "Propagation":
+                import pyuncertainnumber as pun
+                import logging
+                logging.disable(logging.CRITICAL)
+                from pyuncertainnumber.propagation.p import Propagation
+                us = [pun.UncertainNumber.fromConstruct(v) if hasattr(pun.UncertainNumber, "fromConstruct") else v for v in vars_]
+                r, lv = Propagation(us, fcall, "slicing", interval_strategy=s).run(n_slices=case["k"], **kw)._construct, None
+            elif case["method"] == "slicing":
+                r = mixed_up.slicing(vars_, fcall, s, case["k"], **kw)
                 lv = None
             else:
-                r, lv = mixed_up.interval_monte_carlo(vars_, f, s, case["n_sam"], dependency=dep,
-                                                      random_state=case["seed"] if seed_override is None else seed_override,
-                                                      side_effects=True, **kw)
+                r, lv = mixed_up.interval_monte_carlo(vars_, fcall, s, case["n_sam"], dependency=dep,
+                                                      random_state=seed, side_effects=True, **kw)
+            out["raw"], out["vars"] = r, vars_
+            out["vars_snap"] = [snapshot_input(v) for v in vars_]
             out["res"] = ("ok", np.array(r.left, dtype=float), np.array(r.right, dtype=float))
             out["levels"] = None if lv is None else np.array(lv, dtype=float)
         except BaseException as ex:  # noqa
@@ -110,6 +132,15 @@ def run_mixed(case, seed_override=None, dep_obj=None):
     out["focal"], out["alphas"] = cap.focal, cap.alphas
     out["dep_obj"] = dep
     return out
+
+
+def snapshot_input(v):
+    I = X._I()
+    if isinstance(v, I):
+        return ("I", float(v.lo), float(v.hi))
+    if hasattr(v, "left") and hasattr(v, "right"):
+        return ("P", np.array(v.left, dtype=float).tolist(), np.array(v.right, dtype=float).tolist())
+    return ("D", repr(getattr(v, "dist_family", None)), repr(getattr(v, "dist_params", None)))
 
 
 def pbox_arrays(spec):
@@ -122,7 +153,7 @@ def pbox_arrays(spec):
 def gen_cases(ctx):
     rng = ctx.rng
     cases = []
-    cap_cuts = ctx.scale(450, 1600)
+    cap_cuts = ctx.scale(330, 1600)
 
     def rand_input(kind):
         if kind == "I":
@@ -188,8 +219,49 @@ def gen_cases(ctx):
         "imc", n_sam=30, seed=5, dep=("gaussian", 0.8))
     add("multiplicity", [("P", "uniform", (0.0, 1.0), (2.0, 3.0)), ("I", 0.0, 1.0)], ("add", ("v", 0), ("v", 1)), ("direct", None, None),
         "imc", n_sam=100, seed=9, dep=("clayton", 3.0))
-    n_s = ctx.scale(60, 350)
-    n_i = ctx.scale(60, 350)
+    # thin but not degenerate inputs at large offsets / tiny magnitudes (an isclose in place of == collapses their cuts)
+    lin2 = ("add", ("mul", ("v", 0), ("v", 1)), ("v", 0))
+    thinI = [("I", 200000.0, 200001.0), ("I", 1000.0, 1000.03), ("I", 300.0, 300.002), ("I", 2e-9, 8e-9), ("I", 1e6, 1e6 + 1e-3)]
+    thin_cases = [
+        ([("I", 200000.0, 200001.0), ("I", 3.0, 4.0)], ("add", ("v", 1), ("mul", ("c", 10), ("sub", ("v", 0), ("c", 200000)))), ("endpoints", None, None), "slicing", dict(k=3)),
+        ([("I", 1000.0, 1000.03), ("I", 3.0, 4.0)], lin2, ("subinterval", "endpoints", 4), "slicing", dict(k=2)),
+        ([("I", 300.0, 300.002), ("D", "gaussian", (1.0, 0.5))], lin2, ("endpoints", None, None), "imc", dict(n_sam=9, seed=4, dep=None)),
+        ([("P", "normal", (200000.0, 200001.0), (1.0, 1.0)), ("I", 3.0, 4.0)], lin2, ("endpoints", None, None), "slicing", dict(k=4)),
+        ([("P", "uniform", (1000.0, 1000.01), (1000.02, 1000.03)), ("I", 2.0, 3.0)], lin2, ("subinterval", "endpoints", 2), "imc", dict(n_sam=12, seed=8, dep=("gaussian", 0.5))),
+        ([("I", 2e-9, 8e-9), ("I", -5e-9, 3e-9)], ("sub", ("mul", ("c", 2), ("v", 0)), ("v", 1)), ("endpoints", None, None), "slicing", dict(k=3)),
+        ([("I", 2e-9, 8e-9), ("D", "uniform", (1.0, 2.0))], ("sub", ("v", 0), ("mul", ("c", 1e-9), ("v", 1))), ("subinterval", "endpoints", 3), "imc", dict(n_sam=7, seed=2, dep=None)),
+        ([("I", 1e6, 1e6 + 1e-3), ("I", -1.0, 2.0)], ("sub", ("v", 0), ("v", 1)), ("direct", None, None), "slicing", dict(k=3)),
+    ]
+    for inputs, e, cf, method, kw in thin_cases:
+        add("thin", inputs, e, cf, method, **kw)
+    for _ in range(ctx.scale(10, 100)):
+        d = rng.choice([1, 2, 3])
+        inputs = [rng.choice(thinI) if (j == 0 or rng.random() < 0.3) else rand_input(rng.choice(["I", "P", "D"])) for j in range(d)]
+        rng.shuffle(inputs)
+        e = X.gen_expr(rng, d, 2, ["add", "sub", "mul"], [-2, 0.5, 2, 3])
+        cf = rng.choice([("endpoints", None, None), ("subinterval", "endpoints", rng.choice([2, 4])), ("direct", None, None)])
+        if rng.random() < 0.5:
+            add("thin", inputs, e, cf, "slicing", k=rng.choice([2, 3, 4]))
+        else:
+            add("thin", inputs, e, cf, "imc", n_sam=rng.choice([3, 10]), seed=rng.randint(0, 10 ** 6), dep=None)
+    # operand representation: Python-int interval bounds, distribution parameters given as a list
+    add("representation", [("I", 2, 5, "int"), ("D", "gaussian", (1.0, 0.5), "list")], lin2, ("endpoints", None, None), "slicing", k=4)
+    add("representation", [("D", "uniform", (1.0, 3.0), "list"), ("I", -1, 2, "int"), ("P", "normal", (0.0, 1.0), (1.0, 1.0))], three, ("direct", None, None),
+        "imc", n_sam=8, seed=6, dep=None)
+    add("representation", [("I", 1, 3, "int"), ("I", 2, 4, "int")], lin2, ("subinterval", "direct", 2), "slicing", k=3)
+    # less common entry points of the same functionality
+    add("entry-point", [("P", "normal", (0.0, 1.0), (1.0, 1.0)), ("I", 1.0, 2.0)], lin2, ("direct", None, None), "slicing", k=5, via="MixedPropagation")
+    add("entry-point", [("D", "gaussian", (0.0, 1.0)), ("I", 1.0, 2.0)], lin2, ("endpoints", None, None), "imc", n_sam=11, seed=13, dep=("gaussian", 0.3), via="MixedPropagation")
+    add("entry-point", [("P", "uniform", (0.0, 1.0), (2.0, 3.0)), ("D", "uniform", (1.0, 2.0))], lin2, ("subinterval", "endpoints", 2), "imc", n_sam=6, seed=1, dep=None, via="MixedPropagation")
+    add("entry-point", [("P", "normal", (0.0, 1.0), (1.0, 1.0)), ("I", 1.0, 2.0), ("D", "gaussian", (2.0, 0.5))], three, ("endpoints", None, None), "slicing", k=3, via="Propagation")
+    # sequences: different response functions with one __qualname__ on the same inputs, one after the other
+    seq_inputs = [("P", "normal", (0.0, 1.0), (1.0, 1.0)), ("I", 1.0, 2.0)]
+    for fstyle in ("closure", "lambda"):
+        for e in (lin2, ("mul", ("v", 0), ("v", 1)), ("sub", ("mul", ("c", 3), ("v", 1)), ("v", 0)), ("add", ("v", 0), ("v", 1))):
+            add("sequence", seq_inputs, e, ("endpoints", None, None), "slicing", k=3, fstyle=fstyle)
+            add("sequence", seq_inputs, e, ("subinterval", "endpoints", 2), "imc", n_sam=5, seed=17, dep=None, fstyle=fstyle)
+    n_s = ctx.scale(44, 350)
+    n_i = ctx.scale(44, 350)
     for which, count in (("slicing", n_s), ("imc", n_i)):
         made = 0
         tries = 0
@@ -216,8 +288,9 @@ def gen_cases(ctx):
             rr, _ = X.run_b2b(e, sup, "L", "direct", None, None)
             if rr[0] != "ok" or not all(math.isfinite(v) and abs(v) < 1e9 for v in rr[1:]):
                 continue
+            fstyle = ("object", "closure", "lambda")[made % 3]
             if which == "slicing":
-                add("slicing-" + kp, inputs, e, cf, "slicing", k=choose_k(d, cf))
+                add("slicing-" + kp, inputs, e, cf, "slicing", k=choose_k(d, cf), fstyle=fstyle)
             else:
                 per = 1 if cf[0] != "subinterval" else max(cf[2], 1) ** d
                 n_sam = rng.choice([1, 2, 5, 17, 40, 100])
@@ -229,7 +302,7 @@ def gen_cases(ctx):
                     fam = None
                 dep = None if fam is None else (fam, {"independence": None, "gaussian": rng.choice([-0.5, 0.3, 0.8] if d == 2 else [-0.3, 0.3, 0.8]),
                                                       "frank": rng.choice([2.0, 5.0]), "clayton": rng.choice([1.0, 3.0])}[fam])
-                add("imc-" + kp, inputs, e, cf, "imc", n_sam=n_sam, seed=rng.randint(0, 10 ** 6), dep=dep)
+                add("imc-" + kp, inputs, e, cf, "imc", n_sam=n_sam, seed=rng.randint(0, 10 ** 6), dep=dep, fstyle=fstyle)
             made += 1
     return cases
 
@@ -267,7 +340,11 @@ def run(ctx: core.Check, cases=None):
                 "(+ - * / pow exp sqrt, repeated variables) defined on the box of supports; strategies direct, endpoints, "
                 "subinterval x {direct,endpoints} x n_sub 1..3; slicing with k in 2..20 (k^d capped), interval Monte Carlo with "
                 "n_sam in {1..100}, seeds, copulas {default, independence, gaussian, frank, clayton}. One evaluation = one call of "
-                "slicing / interval_monte_carlo (IMC is run twice for reproducibility); all are non-trivial; distinct on the full case.")
+                "slicing / interval_monte_carlo (IMC is run twice for reproducibility); all are non-trivial; distinct on the full case. "
+                "Fixed streams: three-inputs, multiplicity, thin (cuts of relative width 1e-9..1e-5 at large offsets, tiny magnitudes), "
+                "representation (int bounds, list parameters), entry-point (MixedPropagation, Propagation), sequence (functions sharing a "
+                "__qualname__). Every focal interval is also compared with exact corner / tile-corner evaluation done without b2b; every "
+                "returned p-box and input object is re-read after all calls.")
     ctx.assumptions = [
         "p-box construction and the conversion of intervals / distributions to p-boxes (convert_pbox) are inputs: the model "
         "receives the 200 left/right quantiles",
@@ -374,9 +451,46 @@ def run(ctx: core.Check, cases=None):
                 ctx.tie_bad(c["stream"], cj(c, what="grid"), ig[:6], g[:200])
         # ---------------- oracle ----------------
         oracle(ctx, c, o, pv, tol)
+        if (len(ctx.samples) + ctx.evaluations) % 40 == 0:
+            verify_kept(ctx, cases[:len(outs)], outs)
         if len(ctx.samples) < 6 and impl[0] == "ok":
             ctx.sample(cj(c, n_focal=len(o["focal"] or []), focal_head=[list(f) for f in (o["focal"] or [])[:3]],
                           support=[float(impl[1][0]), float(impl[2][-1])]))
+    verify_kept(ctx, cases, outs)
+
+
+def verify_kept(ctx, cases, outs):
+    """every returned Staircase and every input object, re-read after ALL calls were made"""
+    for c, o in zip(cases, outs):
+        if o["res"][0] != "ok" or o.get("raw") is None:
+            continue
+        l, r = np.array(o["raw"].left, dtype=float), np.array(o["raw"].right, dtype=float)
+        if not (np.array_equal(l, o["res"][1]) and np.array_equal(r, o["res"][2])):
+            ctx.fail(feat(c, "result-changed-after-return"), cj(c),
+                     "the p-box returned by this call reads differently after later calls (its arrays are shared with other results)")
+        if [snapshot_input(v) for v in o["vars"]] != o["vars_snap"]:
+            ctx.fail(feat(c, "operand-modified"), cj(c), "an input object was modified by the propagation or by a later call")
+
+
+def independent_focal(c, box):
+    """what b2b must return on one box of cuts, WITHOUT calling b2b: exact evaluation at the corners (vertex strategy), at the
+    lattice of tile corners (subinterval/vertex); for direct evaluation only an inner bound (corner and midpoint values)"""
+    s, st, n = c["cf"]
+    e = c["e"]
+    fb = [(F(a), F(b)) for a, b in box]
+    if s == "endpoints" or (s == "subinterval" and st == "endpoints"):
+        m = 1 if s == "endpoints" else max(n, 1)
+        ks = [sorted(set(X.knots(a, b, m))) for a, b in fb]
+        vals = [X.evq(e, list(p)) for p in itertools.product(*ks)]
+        if any(v is None for v in vals):
+            return None
+        return ("exact", min(vals), max(vals))
+    pts = list(itertools.product(*[(a, b) for a, b in fb])) + [tuple((a + b) / 2 for a, b in fb)]
+    vals = [X.evq(e, list(p)) for p in pts]
+    vals = [v for v in vals if v is not None]
+    if not vals:
+        return None
+    return ("inner", min(vals), max(vals))
 
 
 def tol_of(c):
@@ -467,6 +581,29 @@ def oracle(ctx, c, o, pv, tol):
             rr, _ = X.run_b2b(c["e"], box, "L", s, st, n)
             cache[bkey] = rr
         exp_focal.append(cache[bkey])
+    # 1b. ... and, independently of b2b, of exact evaluation at the corners / tile corners of that box
+    seen_boxes = {}
+    for row, fc in zip(rows, focal):
+        box = tuple(cache[(id(l), a)] for (l, r), a in zip(arrays, row))
+        if box in seen_boxes:
+            continue
+        seen_boxes[box] = True
+        if len(seen_boxes) > 150:
+            break
+        ind = independent_focal(c, box)
+        if ind is None or fc[0] != "ok":
+            continue
+        kind, lo_i, hi_i = ind
+        lo_f, hi_f = F(fc[1]), F(fc[2])
+        inex = isinstance(lo_i, float) or isinstance(hi_i, float)
+        lo_i, hi_i = F(lo_i), F(hi_i)
+        t2 = tol if not inex else max(tol, F(1, 10 ** 9) * max(abs(lo_i), abs(hi_i), 1))
+        bad = (abs(lo_f - lo_i) > t2 or abs(hi_f - hi_i) > t2) if kind == "exact" else (lo_f > lo_i + t2 or hi_f < hi_i - t2)
+        if bad:
+            ctx.fail(feat(c, "focal-not-independent-image"), cj(c, box=[list(b) for b in box], focal=list(fc), independent=[kind, float(lo_i), float(hi_i)]),
+                     f"focal interval {fc[1:]} of the cut box {box}: exact evaluation at the "
+                     f"{'corners / tile corners gives' if kind == 'exact' else 'corners and midpoint reaches'} [{float(lo_i)},{float(hi_i)}]")
+            break
     if any(r[0] != "ok" for r in exp_focal):
         bad = next(r for r in exp_focal if r[0] != "ok")
         ctx.fail(feat(c, "b2b-on-cut-raises", bad), cj(c), f"b2b on a box of alpha-cuts raises {bad}")
